@@ -598,11 +598,13 @@ pub fn run_property(prop: &Prop, opt: &Options) -> i32 {
         wall,
         digest_all.hex()
     );
-    if !harness_errors.is_empty() {
-        return 2;
-    }
+    // a reported violation is a fact about the library whatever else happened in the batch: it decides the exit code (harness
+    // errors of other runs have been printed above)
     if reported > 0 {
         return 1;
+    }
+    if !harness_errors.is_empty() {
+        return 2;
     }
     if done_runs < runs {
         println!("HARNESS-ERROR: wall-clock cap reached after {done_runs}/{runs} runs");
